@@ -19,6 +19,7 @@ import (
 	"time"
 
 	sdkmath "cosmossdk.io/math"
+	tmproto "github.com/cometbft/cometbft/proto/tendermint/types"
 	"github.com/cosmos/cosmos-sdk/crypto/keys/ed25519"
 	"github.com/cosmos/cosmos-sdk/crypto/keys/secp256k1"
 	cryptotypes "github.com/cosmos/cosmos-sdk/crypto/types"
@@ -192,8 +193,16 @@ func (w *c20World) note(err error) bool {
 	return true
 }
 
+// rctx: a context for reading (deliver state inside a block, committed state otherwise)
+func (w *c20World) rctx() sdk.Context {
+	if w.c.InBlock {
+		return w.c.Ctx()
+	}
+	return w.c.App.NewContext(true, tmproto.Header{Height: w.c.App.LastBlockHeight(), Time: w.c.Time})
+}
+
 func (w *c20World) nonce(a sdk.AccAddress) uint64 {
-	acc := w.c.App.AccountKeeper.GetAccount(w.c.Ctx(), a)
+	acc := w.c.App.AccountKeeper.GetAccount(w.rctx(), a)
 	if acc == nil {
 		return 0
 	}
